@@ -3,6 +3,7 @@ package main
 import (
 	"bytes"
 	"context"
+	"crypto/sha256"
 	"encoding/base64"
 	"fmt"
 	"io"
@@ -10,6 +11,7 @@ import (
 	"net/http"
 	"net/http/httptest"
 	"sort"
+	"strconv"
 	"strings"
 	"sync"
 	"time"
@@ -175,6 +177,10 @@ func c10Specs(b *c10Backend) []*MethodSpec {
 		}
 		r := dynamicpb.NewMessage(in.Descriptor().ParentFile().Messages().ByName("Reply"))
 		r.Set(r.Descriptor().Fields().ByName("text"), protoreflect.ValueOfString("r0"))
+		if md, ok := metadata.FromIncomingContext(ctx); ok && len(md.Get("x-c10-pad")) > 0 {
+			n, _ := strconv.Atoi(md.Get("x-c10-pad")[0]) // an incompressible payload of n bytes
+			r.Set(r.Descriptor().Fields().ByName("data"), protoreflect.ValueOfBytes(c10Pad(n)))
+		}
 		return r, nil
 	}
 	return []*MethodSpec{
@@ -183,6 +189,17 @@ func c10Specs(b *c10Backend) []*MethodSpec {
 		{Service: "Back", Name: "CS", In: "Req", Out: "Reply", ClientStream: true, Stream: stream},
 		{Service: "Back", Name: "BD", In: "Req", Out: "Reply", ClientStream: true, ServerStream: true, Stream: stream},
 	}
+}
+
+// c10Pad: n deterministic bytes that do not compress.
+func c10Pad(n int) []byte {
+	out := make([]byte, 0, n+32)
+	h := sha256.Sum256([]byte("c10"))
+	for len(out) < n {
+		out = append(out, h[:]...)
+		h = sha256.Sum256(h[:])
+	}
+	return out[:n]
 }
 
 type c10Client struct {
@@ -445,6 +462,23 @@ func runC10(c *Ctx) {
 		}
 	}
 
+	// replies of every small size with gzip negotiated on the front (the compressed frame is built in a pooled buffer)
+	for n := 0; n <= c.N(140, 600); n++ {
+		var outs [2]string
+		for k, conn := range []*grpc.ClientConn{bcc, fcc} {
+			id++
+			ctx, cancel := context.WithTimeout(metadata.NewOutgoingContext(context.Background(), metadata.Pairs("x-c10-id", fmt.Sprint("z", id), "x-c10-script", "0,0,-2", "x-c10-pad", strconv.Itoa(n))), 2*time.Second)
+			o := backFx.NewMsg("Reply")
+			err := conn.Invoke(ctx, "/"+fxPkg+".Back/U", backFx.NewMsg("Req"), o, grpc.UseCompressor("gzip"))
+			cancel()
+			outs[k] = fmt.Sprintf("%v data=%x", status.Code(err), sha256.Sum256(o.Get(o.Descriptor().Fields().ByName("data")).Bytes()))
+		}
+		in := fmt.Sprintf("U with gzip, backend replies %d incompressible bytes", n)
+		c.Eval("proxy-gzip", in, true)
+		if outs[0] != outs[1] {
+			c.SpecFail("proxy-gzip", in, "proxied: "+outs[1], "direct: "+outs[0], "C10/U/gzip-reply", "with gzip negotiated the client does not receive through the proxy what it receives directly")
+		}
+	}
 	c10HTTPStream(c, mux, backFx, &id)
 	// HTTP front: the request message must reach the backend whatever the body framing
 	for i := 0; i < c.N(40, 400); i++ {
@@ -484,7 +518,8 @@ func runC10(c *Ctx) {
 // c10HTTPStream: an HTTP/JSON client in front of a proxied server-streaming method whose backend
 // fails before, during or after its replies: the client sees the replies in order, then the status.
 func c10HTTPStream(c *Ctx, mux http.Handler, backFx *Fixture, id *int) {
-	for _, sc := range []struct{ replies, code, failAt int }{{0, 0, -2}, {3, 0, -2}, {2, 9, -1}, {2, 9, 0}, {3, 9, 1}, {3, 5, 3}, {1, 13, 1}, {4, 10, 2}} {
+	for _, sc := range []struct{ replies, code, failAt int }{{0, 0, -2}, {3, 0, -2}, {2, 9, -1}, {2, 9, 0}, {3, 9, 1}, {3, 5, 3}, {1, 13, 1}, {4, 10, 2},
+		{1, 16, -1}, {1, 17, -1}, {1, 18, -1}, {2, 17, 1}, {1, 64, 0}} {
 		*id++
 		r := httptest.NewRequest("POST", "/"+fxPkg+".Back/SS", strings.NewReader(`{"name":"h"}`))
 		r.Header.Set("Content-Type", "application/json")
